@@ -97,6 +97,18 @@ CHECKS = {
             "arithmetic; allocations compared by buffer sizes reaching users; two known findings (imperfect-nest merge, "
             "affine.min replaced by its maximum) are blessed by upstream filecheck expectations and listed.",
             "bounded symbolic execution of before/after IR + z3 trace-equality queries", "3/C17"),
+    "C18": (TV,
+            "Generated linalg bodies (all wirings of the kernels' op-kind sequences up to 4 ops, seeded rewirings of the "
+            "6-op qmac body, all verifying width combinations) go through the real convert-linalg-to-kernel and "
+            "convert-kernel-to-linalg; body before / expanded body after are evaluated over bit-vectors and z3 proves "
+            "f_before == f_after for all inputs (QF_BV). Directly constructed kernel ops are expanded and proved equal to "
+            "the kernel's meaning. LowerRescale's arithmetic is proved equal to an SMT transcription of the in-repo golden "
+            "model with symbolic input/zero points/clamp bounds/multiplier/shift. tosa->kernel: parameters carried over, "
+            "clamp range = saturation range, no wrap in the final truncation. Dispatch type clause: finite side-check.",
+            "rescale: shift 1..62, pre-shift value fits int32, multiplier/shift planted as symbolic holes in the emitted "
+            "IR (verbatim copy checked by markers); two known findings (dispatch type check never rejects; rescale "
+            "expansion ignores double_round) listed.",
+            "symbolic execution of before/after bodies + QF_BV equivalence queries; finite enumeration for the dispatch clause", "3/C18"),
 }
 
 NOT_YET = "check not built yet (work in progress in this round); no claim is made"
